@@ -129,6 +129,7 @@ func (g *gen) call(instr ssa.Instruction, c *ssa.CallCommon, pos token.Pos) Val 
 			f()
 		}
 		g.pendingGo = nil
+		g.pendingKeys = nil
 	}
 	var recv Val
 	cargs := args
